@@ -261,8 +261,19 @@ func runC19(x *Ctx) {
 		}
 		ok := len(sel) > 0
 		detail := ""
+		// the string variant may also be the conversion of the (checked) result of the bytes variant, which is
+		// held to the same obligation
+		viaBytes := "call[(*pkg/meta.Meta).GetEncryptedBytes](recv,arg0,arg1)"
 		for _, v := range sel {
-			if r := v.Results()[0].String(); r != want {
+			r := v.Results()[0].String()
+			if g.conv != "" && r == g.conv+viaBytes+"#0)" {
+				if !v.HasFact(eqs(viaBytes+"#1", "const(nil)"), true) {
+					ok = false
+					detail += "the error of GetEncryptedBytes is not checked on the success path\n"
+				}
+				continue
+			}
+			if r != want {
 				ok = false
 				detail += "returns " + r + "\n"
 			}
@@ -277,11 +288,20 @@ func runC19(x *Ctx) {
 	for _, pk := range []string{"token/delegation", "token/invocation"} {
 		for _, opt := range []string{"WithEncryptedMetaString", "WithEncryptedMetaBytes"} {
 			outer := x.fn("C19.R6", pk+"."+opt)
-			inner := x.fn("C19.R6", pk+"."+opt+"$1")
-			if outer == nil || inner == nil {
+			if outer == nil {
 				continue
 			}
-			bind := closureParams(x, outer)
+			// the option returned (a closure today; built by a shared constructor or a method value would do)
+			ops := x.paths("C19.R6", outer)
+			if len(ops) != 1 || ops[0].End != paths.EndReturn {
+				x.C.Unresolved("C19.R6", "shape:"+pk+"."+opt, x.pos(outer), fmt.Sprintf("expected one straight path returning the option, found %d", len(ops)))
+				continue
+			}
+			inner, bind := x.closureEnv(ops[0], ops[0].Results()[0])
+			if inner == nil {
+				x.C.Unresolved("C19.R6", "option-value:"+pk+"."+opt, x.pos(outer), "the value returned is not a function literal, function or method value: "+ops[0].Results()[0].String())
+				continue
+			}
 			ps := x.paths("C19.R6", inner)
 			ok := len(ps) == 1 && ps[0].End == paths.EndReturn
 			detail := ""
@@ -295,7 +315,7 @@ func runC19(x *Ctx) {
 					for _, a := range r.Args[1:] {
 						s := a.String()
 						for fv, par := range bind {
-							s = strings.ReplaceAll(s, "*"+fv, par)
+							s = strings.ReplaceAll(s, fv, par)
 						}
 						got = append(got, s)
 					}
